@@ -243,6 +243,32 @@ func Harness_C13_IncludeChain(format int) {
 	verif.Cover("decoded")
 }
 
+// Harness_C13_RecordDefault: a record-typed field whose default literal is an
+// object (empty or not) gets a fresh instance that carries the nested
+// record's own defaults, in decoding and in the default instance.
+func Harness_C13_RecordDefault(format int) {
+	doc := `{}`
+	if format == 1 {
+		doc = `()`
+	}
+	var h *vt.Hold3
+	if verif.Bool() {
+		h = new(vt.Hold3)
+		verif.Assert(h.UnmarshalRestLi(c13Reader(format, doc)) == nil, "decode Hold3")
+	} else {
+		h = vt.NewHold3WithDefaultValues()
+	}
+	for _, b := range []*vt.Base3{h.Hb, h.Hs} {
+		verif.Assert(b != nil, "record default {} not applied")
+		verif.Assert(b.Bd != nil && *b.Bd == 5, "a record defaulted to {} lacks its own int default")
+		verif.Assert(b.Bs != nil && len(*b.Bs) == 1 && (*b.Bs)[0] == "x", "a record defaulted to {} lacks its own array default")
+	}
+	verif.Assert(h.Hi != nil && h.Hi.S == "x", "record default {\"s\":\"x\"} not applied")
+	verif.Assert(h.Hi.N != nil && *h.Hi.N == 7, "a record defaulted to a non-empty object lacks its own defaults")
+	verif.Assert(h.Hb != h.Hs, "default records shared")
+	verif.Cover("decoded")
+}
+
 func Harness_C13_Twin(format int) {
 	present := make([]bool, len(c13Fields))
 	present[0] = verif.Bool()
